@@ -40,10 +40,34 @@ inline void perturb() {
 }
 }
 
+namespace vshim {
+// steering (harness command FK): a thread other than `owner` that is about to take the mutex `mtx` for the (countdown+1)-th time
+// is parked there until `release` is set (or 3 s pass) — "another thread acts exactly between two operations of this one"
+struct Gate {
+    std::atomic<void *> mtx{nullptr};
+    std::atomic<long> countdown{-1};
+    std::atomic<int> parked{0};
+    std::atomic<int> release{0};
+    std::thread::id owner;
+};
+inline Gate & gate() { static Gate g; return g; }
+inline void at_lock(void * m) {
+    Gate & g = gate();
+    if (g.mtx.load() != m || std::this_thread::get_id() == g.owner) return;
+    if (g.countdown.load() < 0) return;
+    if (g.countdown.fetch_sub(1) == 0) {
+        g.parked = 1;
+        auto t0 = std::chrono::steady_clock::now();
+        while (!g.release.load() && std::chrono::steady_clock::now() - t0 < std::chrono::seconds(3))
+            std::this_thread::sleep_for(std::chrono::microseconds(50));
+    }
+}
+}
+
 namespace std {
 class verif_mutex {
   public:
-    void lock() { vshim::perturb(); m.lock(); }
+    void lock() { vshim::perturb(); vshim::at_lock(this); m.lock(); }
     void unlock() { m.unlock(); vshim::perturb(); }
     bool try_lock() { return m.try_lock(); }
   private:
